@@ -588,6 +588,7 @@ impl Scenario for TrioScn {
         let locked = w.cw20_balance(&t.lp, &t.addr);
         cx.check("min_liquidity.never_decreases", locked >= g.locked, || format!("trio-held LP {} -> {}", g.locked, locked));
         g.locked = locked;
+        self.keep_own(cx);
     }
 
     fn invariants(&self, w: &mut World, h: &TH, g: &TG, cx: &mut Cx) {
@@ -637,6 +638,18 @@ impl Scenario for TrioScn {
                 }
             }
         }
+        self.keep_own(cx);
+    }
+}
+
+impl TrioScn {
+    fn keep_own(&self, cx: &mut Cx) {
+        let prefixes: &[&str] = match self.property.as_str() {
+            "C07" => &["collect.", "ledger.", "burn."],
+            "C14" => &["sim_eq_exec."],
+            _ => return,
+        };
+        cx.violations.retain(|v| prefixes.iter().any(|p| v.oracle.starts_with(p)));
     }
 }
 
